@@ -220,6 +220,7 @@ type Broker struct {
 	Unknown []string // frames the broker could not attribute
 	DownCalls []*message.DownstreamCall // calls/replies emitted to the client
 	curSentAt time.Duration
+	OnEmit    func(m message.Message) // every non-ack reply the broker emits
 }
 
 func newBroker(s *Sim, cfg BrokerCfg) *Broker {
@@ -361,6 +362,9 @@ func (b *Broker) emit(p *pend, extra []*pend) {
 		return
 	}
 	p.Link.push(p.Msg)
+	if b.OnEmit != nil {
+		b.OnEmit(p.Msg)
+	}
 }
 
 // EmitDuplicateAck re-sends a result that was already sent (duplicate ack fault).
@@ -550,8 +554,12 @@ func (b *Broker) Handle(l *Link, m message.Message) {
 		b.reply(b.Cfg.AutoReq, &pend{Kind: "resp", Link: l, Desc: "upstream-close", Msg: resp})
 	case *message.UpstreamMetadata:
 		b.Metas = append(b.Metas, &bMeta{Order: b.next(), Link: l.ID, ReqID: uint32(t.RequestID), Msg: t})
-		b.reply(b.Cfg.AutoReq, &pend{Kind: "resp", Link: l, Desc: "metadata-ack", Msg: &message.UpstreamMetadataAck{
-			RequestID: t.RequestID, ResultCode: message.ResultCodeSucceeded, ResultString: metaMarker(t), ExtensionFields: &message.UpstreamMetadataAckExtensionFields{}}})
+		mcode := message.ResultCodeSucceeded
+		if mk := metaMarker(t); len(mk) > 5 && mk[5] == '!' { // callers ask for a failure code by name
+			mcode = message.ResultCodeProcessFailed
+		}
+		b.reply(b.Cfg.AutoReq, &pend{Kind: "resp", Link: l, Desc: "metadata-ack " + metaMarker(t), Msg: &message.UpstreamMetadataAck{
+			RequestID: t.RequestID, ResultCode: mcode, ResultString: metaMarker(t), ExtensionFields: &message.UpstreamMetadataAckExtensionFields{}}})
 	case *message.UpstreamCall:
 		call := &bCall{Order: b.next(), Link: l.ID, Msg: t}
 		b.Calls = append(b.Calls, call)
